@@ -1,4 +1,6 @@
 import CamVerif.Model.Streaming
+import CamVerif.Model.StreamingLimits
+import CamVerif.Model.StreamingPublish
 import Driver.Util
 /-!
 Line protocol of the C15 driver.
@@ -6,11 +8,22 @@ Line protocol of the C15 driver.
 `c15 run <profile> <nregions> (<base> <hex>)* <op>*`
   one request = one lifetime of a freshly opened handle over a device whose memory map consists
   of the given regions.  ops (executed in order, the handle caches persist between them):
+    `L:<addr>:<hex>` (`runl` only) close, the device advertises other limits (max_cmd, max_ack: 8 bytes at SBRM+0x14 = addr), open again,
     `e` enable_streaming, `d` disable_streaming, `s` ControlHandle::sbrm, `p` StreamParams::from_control (+ maximum_payload_size), `l` start of the receive loop (parameters = from_control now; + transfers of one frame), `M:<addr>:<hex>` device-side register change
   each optionally followed by `@<k>:<kind>:<applied>`: the k-th device access (0-based, counted
   within the op) is faulted; kind = `status` (GenCP error status) or a libusb error name.
   answer: `<op>=<result>[<access log>] ... img=<hex>|<hex>..` (final content of every region).
   The sequence stops after a panic.
+
+`c15 runl <profile> <max_cmd> <max_ack> <nregions> (<base> <hex>)* <op>*`
+  the same with the handle's negotiated limits given explicitly (`Prim.limits` of
+  `Model/StreamingLimits.lean`: register reads / writes are cut into commands, or refused); one
+  log entry and one fault index per COMMAND.
+
+`c15 runp <profile> <ctrl> <addr> <hex> <nregions> (<base> <hex>)* <op>*`
+  the same over a device that publishes `<hex>` at `<addr>` whenever an executed write clears
+  bit 0 of the byte at `<ctrl>` (`Prim.publishing` of `Model/StreamingPublish.lean`; one command
+  per register).
 
 `c15 sizes <profile> <align> <leader> <payload> <trailer>` : the pure arithmetic.
 -/
@@ -60,11 +73,11 @@ structure Op where
   poke : Option (Nat × Bytes) := none
 
 def parseOp (s : String) : Option Op :=
-  if s.startsWith "M:" then
+  if s.startsWith "M:" || s.startsWith "L:" then
     match s.splitOn ":" with
-    | [_, a, h] =>
+    | [k, a, h] =>
       match a.toNat?, hexToBytes h with
-      | some a, some d => some ⟨'M', none, some (a, d)⟩
+      | some a, some d => some ⟨if k == "L" then 'L' else 'M', none, some (a, d)⟩
       | _, _ => none
     | _ => none
   else
@@ -135,6 +148,48 @@ def runOps (p : Profile) : List Op → StreamHandle → St → List String → L
     let tok := s!"{op.kind}={res}{showLog st'.dev.log}"
     if isPanic then (tok :: acc, st') else runOps p ops sh' st' (tok :: acc)
 
+/-- `runOps` for a handle with negotiated limits (`runl`) -/
+def runOpsL (mk : Limits → Prim) (L : Limits) (p : Profile) : List Op → StreamHandle → St → List String → List String × St
+  | [], _, st, acc => (acc, st)
+  | op :: ops, sh, st, acc =>
+    match op.poke with
+    | some (a, d) =>
+      if op.kind == 'L' then
+        -- close, the device advertises other limits (8 bytes: max_cmd, max_ack at SBRM+0x14),
+        -- open again: the handle state (sbrm / sirm caches) survives, the limits are re-read
+        if st.dev.mem.rangeMapped a d.length then
+          runOpsL mk ⟨fromLE (d.take 4), fromLE ((d.drop 4).take 4)⟩ p ops sh
+            { st with dev := { st.dev with mem := st.dev.mem.write a d } } ("L=ok" :: acc)
+        else ("L=err:unmapped" :: acc, st)
+      else
+      if st.dev.mem.rangeMapped a d.length then
+        runOpsL mk L p ops sh { st with dev := { st.dev with mem := st.dev.mem.write a d } } ("M=ok" :: acc)
+      else runOpsL mk L p ops sh st ("M=unmapped" :: acc)
+    | none =>
+    let π := mk L
+    let st := { st with dev := { st.dev with log := [], faults := schedule op.fault } }
+    let (res, sh', st', isPanic) : String × StreamHandle × St × Bool :=
+      if op.kind == 'e' then
+        let (r, st') := enableStreamingG π p st
+        (showR (fun _ => "ok") r, sh, st', r.isPanic)
+      else if op.kind == 'd' then
+        let (r, st') := disableStreamingG π st
+        (showR (fun _ => "ok") r, sh, st', r.isPanic)
+      else if op.kind == 's' then
+        let (r, st') := getSbrmG π st
+        (showR (fun _ => "ok") r, sh, st', r.isPanic)
+      else if op.kind == 'l' then
+        let (r, sh1, st') := startStreamingLoopG π sh st
+        (match r with
+          | .ok sp => showParams p sh1.params ++ ",frame=" ++ frameDigest sp
+          | .err _ => "err:Stream"
+          | .panic => "panic", stopStreamingLoop sh1, st', r.isPanic)
+      else
+        let (r, st') := fromControlG π st
+        (showR (showParams p) r, sh, st', r.isPanic)
+    let tok := s!"{op.kind}={res}{showLog st'.dev.log}"
+    if isPanic then (tok :: acc, st') else runOpsL mk L p ops sh' st' (tok :: acc)
+
 def parseRegions : Nat → List String → Option (List (Nat × Array UInt8) × List String)
   | 0, rest => some ([], rest)
   | n + 1, b :: h :: rest => do
@@ -159,6 +214,34 @@ def handle : List String → String
         | none => "bad-op"
       | none => "bad-op"
     | _, _ => "bad-op"
+  | "runl" :: p :: mc :: ma :: n :: rest =>
+    match profileOf p, mc.toNat?, ma.toNat?, n.toNat? with
+    | some p, some mc, some ma, some n =>
+      match parseRegions n rest with
+      | some (rs, opToks) =>
+        match opToks.mapM parseOp with
+        | some ops =>
+          let st : St := ⟨⟨memOfRegions rs, [], []⟩, none, none⟩
+          let (toks, st') := runOpsL Prim.limits ⟨mc, ma⟩ p ops StreamHandle.new st []
+          let img := "|".intercalate (rs.map fun r => bytesToHex (st'.dev.mem.read r.1 r.2.size))
+          joinSp (toks.reverse ++ [s!"img={img}"])
+        | none => "bad-op"
+      | none => "bad-op"
+    | _, _, _, _ => "bad-op"
+  | "runp" :: p :: ctrl :: pa :: ph :: n :: rest =>
+    match profileOf p, ctrl.toNat?, pa.toNat?, hexToBytes ph, n.toNat? with
+    | some p, some ctrl, some pa, some pd, some n =>
+      match parseRegions n rest with
+      | some (rs, opToks) =>
+        match opToks.mapM parseOp with
+        | some ops =>
+          let st : St := ⟨⟨memOfRegions rs, [], []⟩, none, none⟩
+          let (toks, st') := runOpsL (fun _ => Prim.publishing ⟨ctrl, pa, pd⟩) ⟨0, 0⟩ p ops StreamHandle.new st []
+          let img := "|".intercalate (rs.map fun r => bytesToHex (st'.dev.mem.read r.1 r.2.size))
+          joinSp (toks.reverse ++ [s!"img={img}"])
+        | none => "bad-op"
+      | none => "bad-op"
+    | _, _, _, _, _ => "bad-op"
   | ["sizes", p, a, l, pl, t] =>
     match profileOf p, a.toNat?, l.toNat?, pl.toNat?, t.toNat? with
     | some p, some a, some l, some pl, some t =>
